@@ -225,8 +225,18 @@ class Engine:
                             else:
                                 files[d] = head + "\n\n" + links + sep + tail
         inv_conditions = dict(zip(["key", "remote", "third"], inv_hazards))
+        # docutils' own settings that change how MyST's I/O and recovery code runs (swarm, docutils front end)
+        dsettings: dict = {}
+        if front_end == "docutils" and g.random() < 0.4:
+            for name, values in (("file_insertion_enabled", [False]), ("raw_enabled", [False]),
+                                 ("input_encoding", ["utf-8-sig", "latin-1", "ascii"]), ("tab_width", [4, 2]),
+                                 ("line_length_limit", [200, 80]), ("report_level", [1, 3]),
+                                 ("strip_comments", [True]), ("doctitle_xform", [False]),
+                                 ("syntax_highlight", ["short", "none"]), ("id_prefix", ["p-"])):
+                if g.random() < 0.3:
+                    dsettings[name] = g.choice(values)
         base = {"engine": self.name, "front_end": front_end, "files": files, "cfg": cfg, "urls": urls,
-                "inv_conditions": inv_conditions,
+                "inv_conditions": inv_conditions, "docutils_settings": dsettings,
                 "parse_docs": parse_docs, "hazards": hazards + inv_hazards,
                 # post-transforms depend on the builder (latex/texinfo raise NoUri for documents outside their tree)
                 "builder": g.choice(["xml"] * 10 + ["html"] * 3 + ["latex", "latex", "latex", "texinfo", "texinfo", "text",
@@ -305,7 +315,7 @@ class Engine:
                         base = os.path.basename(t["rel"])
                         if not re.fullmatch(r"[\w.-]{3,80}", base):
                             continue  # over-long or exotic names may be escaped or shortened in messages
-                        if t["site"].startswith("inventory.py") and _suppresses_inv(plan["cfg"]):
+                        if t["site"].startswith("inventory.py") and _inv_quiet(plan):
                             continue
                         if fe == "sphinx" and "docutils" in sup:
                             continue
@@ -317,7 +327,7 @@ class Engine:
                 # ... and an inventory that was fetched but cannot be a valid inventory (bad header, not compressed,
                 # a body that is no zlib stream, invalid UTF-8, empty) is reported as a failed load, not silently taken
                 # as empty
-                if not violations and rec["status"] == "ok" and not _suppresses_inv(plan["cfg"]):
+                if not violations and rec["status"] == "ok" and not _inv_quiet(plan):
                     fetched = sum(1 for t in rec["trace"] if t["site"].startswith("inventory.py")
                                   and t["op"] in ("open", "urlopen"))
                     if fetched >= len(plan["cfg"].get("inventories") or {}) > 0:  # all were loaded (lazily, at once)
@@ -357,7 +367,7 @@ class Engine:
                             fault_plans.append(fp)
                         else:
                             count("sampled_plans_without_faultable_call")
-            suppressed_inv = _suppresses_inv(plan["cfg"])
+            suppressed_inv = _inv_quiet(plan)
             for pi, fp in enumerate(fault_plans, 1):
                 res = self._run_pass(plan, root, fp, False, violate, count, rec)
                 evals += 1
@@ -596,6 +606,11 @@ def _fault_desc(faults, delivered) -> str:
     return "fault-free"
 
 
+def _inv_quiet(plan: dict) -> bool:
+    """The configuration asks for inventory load failures (WARNING level, type myst.inv_retrieval) not to be shown."""
+    return _suppresses_inv(plan["cfg"]) or int((plan.get("docutils_settings") or {}).get("report_level", 2)) > 2
+
+
 def _suppresses_inv(cfg: dict) -> bool:
     return any(w in ("myst", "myst.inv_retrieval") for w in (cfg.get("suppress_warnings") or []))
 
@@ -685,7 +700,8 @@ def _pass(plan, root, faults, observe_only):
                 for d in plan["parse_docs"]:
                     ws = io.StringIO()
                     ov = sut.docutils_overrides(cfg, {"warning_stream": ws,
-                                                      "input_encoding_error_handler": plan["error_handler"]})
+                                                      "input_encoding_error_handler": plan["error_handler"],
+                                                      **(plan.get("docutils_settings") or {})})
                     try:
                         doctree = publish_doctree(texts[d], source_path=os.path.join(root, d), parser=Parser(),
                                                   settings_overrides=ov)
